@@ -44,6 +44,8 @@ pub enum Via {
     ConstPath,
     /// the call stands in a directive that emits nothing (`#assert f(..) >= 0`)
     Assert,
+    /// the call defines a constant that nothing uses
+    UnusedConst,
 }
 
 #[derive(Clone, Debug, PartialEq, Eq, Serialize, Deserialize)]
@@ -156,6 +158,7 @@ impl Case {
                         match via {
                             Via::Direct => t.push_str(&format!("#d {}\n", call)),
                             Via::Assert => t.push_str(&format!("#assert sizeof({}) >= 0\n", call)),
+                            Via::UnusedConst => t.push_str(&format!("unused{} = {}\n", k, call)),
                             Via::ConstPath => {
                                 let quoted = format!("\"{}\"", esc(spelling));
                                 t.push_str(&format!("path{} = {}\n", k, quoted));
@@ -240,8 +243,12 @@ pub fn draw_spelling(rng: &mut Rng, from: &str, target: &str, is_data: bool, std
     let ext = if is_data { "bin" } else { "asm" };
     // `clean` cases use only spellings the property requires to work, so
     // that deep graphs (chains, diamonds, cycles, #once) are actually expanded
-    let style = if clean { *rng.pick(&[0usize, 0, 0, 0, 30, 38, 46, 54, 60, 74, 100, 101, 102, 108]) } else { rng.below(109) };
+    let style = if clean { *rng.pick(&[0usize, 0, 0, 0, 30, 38, 46, 54, 60, 74, 100, 101, 102, 108]) } else { rng.below(113) };
     match style {
+        109 => format!(" ../sentinel.{}", ext),
+        110 => format!("\t../{}", rng.pick(&["sentinel.asm", "data.bin", "main.asm"])),
+        111 => format!("  ../sub/../sentinel.{}", ext),
+        112 => format!(" {}", rel),
         108 => format!("\\{}", target.replace('/', "\\")),
         104 => format!("<std>//{}", target),
         105 => format!("<std>/\\{}", target),
@@ -313,7 +320,16 @@ pub fn draw_case(rng: &mut Rng) -> Case {
         let kind = rng.below(3);
         let len = rng.range(0, 6);
         let content: Vec<u8> = match kind {
-            0 => (0..len).map(|k| 0x80 + (j * 8 + k) as u8).collect(),
+            0 => {
+                let mut v: Vec<u8> = (0..len).map(|k| 0x80 + (j * 8 + k) as u8).collect();
+                if rng.chance(1, 8) {
+                    // a binary file that happens to start with the bytes of a UTF-8 BOM
+                    let mut b = vec![0xEF, 0xBB, 0xBF];
+                    b.extend_from_slice(&v);
+                    v = b;
+                }
+                v
+            }
             1 => {
                 let mut s = String::new();
                 for k in 0..(len * 2) {
@@ -324,6 +340,10 @@ pub fn draw_case(rng: &mut Rng) -> Case {
                 }
                 if rng.chance(1, 3) {
                     s.push('\n');
+                }
+                if rng.chance(1, 10) && !s.is_empty() {
+                    // a sign is not a digit
+                    s.insert(0, *rng.pick(&['+', '-']));
                 }
                 s.into_bytes()
             }
@@ -401,9 +421,9 @@ pub fn draw_case(rng: &mut Rng) -> Case {
                         Some("bits") => IncKind::Incbinstr,
                         _ => IncKind::Inchexstr,
                     };
-                    let via = if defs_path.is_some() { *rng.pick(&[Via::Direct, Via::Rule, Via::Fn, Via::AsmBlock, Via::Fn, Via::Arg, Via::NestedArg, Via::ConstPath, Via::Assert]) } else { *rng.pick(&[Via::Direct, Via::Direct, Via::ConstPath, Via::Assert]) };
+                    let via = if defs_path.is_some() { *rng.pick(&[Via::Direct, Via::Rule, Via::Fn, Via::AsmBlock, Via::Fn, Via::Arg, Via::NestedArg, Via::ConstPath, Via::Assert, Via::UnusedConst]) } else { *rng.pick(&[Via::Direct, Via::Direct, Via::ConstPath, Via::Assert, Via::UnusedConst]) };
                     let container = match via {
-                        Via::Direct | Via::Arg | Via::NestedArg | Via::ConstPath | Via::Assert => files[i].path.clone(),
+                        Via::Direct | Via::Arg | Via::NestedArg | Via::ConstPath | Via::Assert | Via::UnusedConst => files[i].path.clone(),
                         _ => defs_path.clone().unwrap(),
                     };
                     let spelling = draw_spelling(rng, &container, &data[d].path, true, std_dir, clean);
@@ -451,7 +471,15 @@ pub fn draw_case(rng: &mut Rng) -> Case {
             let sp1 = rel_spelling(&from, &twin);
             let sp2 = rel_spelling(&from, &p);
             files[0].items.push(Item::Include(sp1));
-            files[0].items.push(Item::Include(sp2));
+            files[0].items.push(Item::Include(sp2.clone()));
+            if rng.chance(1, 2) {
+                // a third spelling that matches both ignoring case and names no file
+                let up = match sp2.rfind('/') {
+                    Some(i) => format!("{}{}", &sp2[..i + 1], sp2[i + 1..].to_uppercase()),
+                    None => sp2.to_uppercase(),
+                };
+                files[0].items.push(Item::Include(up));
+            }
         }
     }
     // roots
